@@ -259,10 +259,10 @@ void backend () {
   /* do initial timer tick (initialize current_time and allow LPC code to access time).
    * This is always done even if no timer is started, so that current_time is valid.
    */
-  call_heart_beat ();
-
   if (setjmp (econ.context))
     restore_context (&econ);
+  else
+    call_heart_beat ();	/* an error in a preloaded object's heart_beat() comes back here */
 
   if (MAIN_OPTION(console_mode) && !(all_users && all_users[0]))
     init_console_user(0);
